@@ -345,6 +345,8 @@ def _registry(E):
         "peaks.get_peak_indices": (f_pk.get_peak_indices, (asig,), {}),
         "peaks.get_zero_crossings_array_indices": (f_pk.get_zero_crossings_array_indices, (a,), {"keep_adj_zeros": True}),
         "peaks.get_zero_crossings_array_indices(tol)": (f_pk.get_zero_crossings_array_indices, (a,), {"tol": E["thr"]}),
+        "peaks.get_zero_crossings_array_indices(one-signed)": (f_pk.get_zero_crossings_array_indices, (E["apos"],), {}),
+        "peaks.get_switched_peak_array_indices(one-signed)": (f_pk.get_switched_peak_array_indices, (E["apos"],), {}),
         "peaks.get_zero_crossings_indices": (f_pk.get_zero_crossings_indices, (asig,), {}),
         "peaks.get_zero_and_peak_array_indices": (f_pk.get_zero_and_peak_array_indices, (a,), {}),
         "peaks.get_major_change_indices": (f_pk.get_major_change_indices, (a,), {}),
@@ -402,6 +404,19 @@ def _registry(E):
     return R
 
 
+def _scribble(x):
+    """Overwrite every writeable ndarray inside a result in place."""
+    if isinstance(x, np.ndarray):
+        if x.flags.writeable and x.size and x.dtype.kind in "fiuc":
+            try:
+                x += 7
+            except Exception:  # noqa
+                pass
+    elif isinstance(x, (tuple, list)):
+        for v in x:
+            _scribble(v)
+
+
 def _on_fresh(E, f):
     """Run a method of a freshly constructed AccSignal (so that calling twice is repeatable and the object itself is not an argument)."""
     return f(E["fresh_asig"]())
@@ -438,7 +453,8 @@ def _pure_cases(draw):
         rule="each case calls, for each of the three container variants, EVERY registry entry (100 call forms covering sdof, displacements, im, fns.average/generic/frequency/"
              "peaks_and_crossings/time_shift/time_step, stockwell, surface, multiple, loader.save) twice on records of n 24..300 given as "
              "float64 / int64 ndarray or list; non-trivial = non-constant record",
-        oracle="snapshot (dtype, shape, bytes; signal values/dt/npts) of every argument before vs after each call; the two results equal (NaN-aware, exact)",
+        oracle="snapshot (dtype, shape, bytes; signal values/dt/npts) of every argument before vs after each call; the two results equal (NaN-aware, exact) "
+               "although the caller overwrote the first result in place before the second call; returned signals are new objects sharing no memory with arguments",
         require={"how=int": 0.9, "how=list": 0.9})
 def pure_functions(case, ctx):
     for how in (["float", "int", "list"] if "how" not in case else [case["how"]]):
@@ -475,7 +491,7 @@ def _pure_one(case, ctx, how):
          "bexp": np.array([0.2, 0.34, 0.5]), "xf": np.arange(6, dtype=float), "ftab": rs.standard_normal((6, 3)),
          "xq": np.array([-0.5, 0.0, 1.25, 4.0, 5.5]), "xq_in": np.array([0.0, 1.25, 4.0, 5.0]), "ycol": rs.standard_normal(6),
          "stock": stockwell.transform(af),
-         "asig_even": eqsig.AccSignal(np.array(af[:2 * (n // 2)]), dt),
+         "asig_even": eqsig.AccSignal(np.array(af[:2 * (n // 2)]), dt), "apos": np.abs(af) + 1.0,
          "fresh_asig": (lambda: eqsig.AccSignal(np.array(af), dt)),
          "T_desc": np.array([40 * dt, 12 * dt, 3 * dt]), "T_mixed": np.array([12 * dt, 40 * dt, 3 * dt, 25 * dt]),
          "F_desc": np.array([20.0, 5.0, 1.0, 0.3]), "cut": np.array([0.05 / dt * 0.2, 0.05 / dt * 2.0])}
@@ -493,6 +509,12 @@ def _pure_one(case, ctx, how):
             except Exception as e:  # noqa  (rejected container / argument: not a C05 matter)
                 err = e
                 break
+            if rep == 0 and not name.startswith("loader."):
+                # the first answer belongs to the caller: keep a pristine copy for the comparison and scribble over the
+                # original (as a caller shifting indices or scaling a series in place would) before calling again
+                pristine = copy.deepcopy(res[0]) if not isinstance(res[0], eqsig.Signal) else res[0]
+                _scribble(res[0])
+                res[0] = pristine
         after = [_snap(x) for x in args] + [_snap(v) for v in kwargs.values()]
         for i, (p, q) in enumerate(zip(before, after)):
             if p != q:
